@@ -51,6 +51,15 @@ end
 def Coh (t : Node) : Prop :=
   ∀ a ∈ occS t, ∀ b ∈ occS t, a.setSid? = b.setSid? → a = b
 
+/-- a key that `AttributeSet.__getitem__` does not read as a dotted path (`a.b`): the file-side
+    splitter `_split_attrpath` sees at most one segment in it. Every identifier is one; so is every
+    quoted spelling `_format_attr_name` writes (dots inside quotes do not split) — the latter is
+    C12's subject and is a hypothesis here. -/
+def plainKey (k : Text) : Bool :=
+  match splitAttrpath k with
+  | .ok segs => segs.length ≤ 1
+  | .error _ => true
+
 /-- identities reachable through `values` are pairwise different -/
 def IdsOK (t : Node) : Prop := (vIds t).Nodup
 /-- no set reachable through `values` defines a name twice -/
